@@ -185,14 +185,15 @@ Section VMScalar.
   Proof. induction e; cbn [F.need]; lia. Qed.
 
   (* the global slots 0 .. hold the current values of the declared variables *)
-  Definition globals_ok (rho : list F.sval) : Prop :=
-    forall i v, nth_error rho i = Some v -> nth i (globals s) VGoNil = inj v.
+  Variable slot : nat -> nat.       (* the global slot of variable i *)
+  Definition globals_at (rho : list F.sval) : Prop :=
+    forall i v, nth_error rho i = Some v -> nth (slot i) (globals s) VGoNil = inj v.
 
   Lemma inj_not_gonil v : inj v <> VGoNil.
   Proof. destruct v; discriminate. Qed.
 
   Variable rho : list F.sval.
-  Hypothesis Hglob : globals_ok rho.
+  Hypothesis Hglob : globals_at rho.
 
   Definition outcome_of (e : F.sexp) (f : nat) (ip : nat) (st : list value) : res * list value :=
     match F.sev rho e with
@@ -200,45 +201,45 @@ Section VMScalar.
     | inr x => (RErr (cls x) s, defers)
     end.
 
-  Theorem vm_scalar : forall e base pre post st,
+  Theorem vm_scalar_at : forall e base pre post st,
     F.wf (length rho) e = true ->
-    instr = pre ++ fst (F.cexp base e) ++ post ->
-    (forall i k, nth_error (snd (F.cexp base e)) i = Some k -> nth (base + i) (code_consts c) (KInt 0) = k) ->
+    instr = pre ++ fst (F.cexp_at slot base e) ++ post ->
+    (forall i k, nth_error (snd (F.cexp_at slot base e)) i = Some k -> nth (base + i) (code_consts c) (KInt 0) = k) ->
     below + length st + F.need e <= MAXSTACK ->
     exists k, forall f,
-      run (k + f) (length pre) st = outcome_of e f (length pre + length (fst (F.cexp base e))) st.
+      run (k + f) (length pre) st = outcome_of e f (length pre + length (fst (F.cexp_at slot base e))) st.
   Proof.
     induction e as [z|b| |str|i|a IHa|a IHa|o a IHa b IHb|a IHa b IHb|a IHa b IHb|cnd IHc t IHt el IHe];
       intros base pre post st Hwf Hi Hk Hn; unfold outcome_of; cbn [F.sev]; cbn [F.wf] in Hwf.
     - (* SInt *)
-      cbn [F.cexp fst snd] in *. exists 1. intros f. cbn [Nat.add].
+      cbn [F.cexp_at fst snd] in *. exists 1. intros f. cbn [Nat.add].
       rewrite step_const; [|rewrite Hi; apply at0|cbn [F.need] in Hn; lia].
       assert (Hop : nth (length pre + 1) instr 0%N = N.of_nat base) by (rewrite Hi; apply at1).
       rewrite Hop, Nat2N.id. pose proof (Hk 0 (KInt z) eq_refl) as Hz. rewrite Nat.add_0_r in Hz. rewrite Hz. reflexivity.
     - (* SBool *)
-      cbn [F.cexp fst snd] in *. exists 1. intros f. cbn [Nat.add length].
+      cbn [F.cexp_at fst snd] in *. exists 1. intros f. cbn [Nat.add length].
       rewrite (step_push f (length pre) st (if b then opTrue else opFalse) (VBool b));
         [rewrite Nat.add_1_r; reflexivity|rewrite Hi; apply at0|destruct b; auto|cbn [F.need] in Hn; lia].
     - (* SNil *)
-      cbn [F.cexp fst snd] in *. exists 1. intros f. cbn [Nat.add length].
+      cbn [F.cexp_at fst snd] in *. exists 1. intros f. cbn [Nat.add length].
       rewrite (step_push f (length pre) st opNil VNil);
         [rewrite Nat.add_1_r; reflexivity|rewrite Hi; apply at0|auto|cbn [F.need] in Hn; lia].
     - (* SStr *)
-      cbn [F.cexp fst snd] in *. exists 1. intros f. cbn [Nat.add].
+      cbn [F.cexp_at fst snd] in *. exists 1. intros f. cbn [Nat.add].
       rewrite step_const; [|rewrite Hi; apply at0|cbn [F.need] in Hn; lia].
       assert (Hop : nth (length pre + 1) instr 0%N = N.of_nat base) by (rewrite Hi; apply at1).
       rewrite Hop, Nat2N.id. pose proof (Hk 0 (KStr str) eq_refl) as Hz. rewrite Nat.add_0_r in Hz. rewrite Hz. reflexivity.
     - (* SVar *)
       apply Nat.ltb_lt in Hwf. destruct (nth_error rho i) as [v|] eqn:Ei; [|apply nth_error_None in Ei; lia].
-      cbn [F.cexp fst snd] in *. exists 1. intros f. cbn [Nat.add].
-      assert (Hop : nth (length pre + 1) instr 0%N = N.of_nat i) by (rewrite Hi; apply at1).
+      cbn [F.cexp_at fst snd] in *. exists 1. intros f. cbn [Nat.add].
+      assert (Hop : nth (length pre + 1) instr 0%N = N.of_nat (slot i)) by (rewrite Hi; apply at1).
       rewrite (step_loadglobal f (length pre) st (inj v)); [reflexivity|rewrite Hi; apply at0|cbn [F.need] in Hn; lia| |apply inj_not_gonil].
       rewrite Hop, Nat2N.id. apply Hglob. exact Ei.
     - (* SNeg *)
-      cbn [F.cexp] in *. destruct (F.cexp base a) as [ca ka] eqn:Ea. cbn [fst snd] in *. cbn [F.need] in Hn.
-      assert (Hi' : instr = pre ++ fst (F.cexp base a) ++ ([opUnaryNegative] ++ post))
+      cbn [F.cexp_at] in *. destruct (F.cexp_at slot base a) as [ca ka] eqn:Ea. cbn [fst snd] in *. cbn [F.need] in Hn.
+      assert (Hi' : instr = pre ++ fst (F.cexp_at slot base a) ++ ([opUnaryNegative] ++ post))
         by (rewrite Ea; cbn [fst]; rewrite Hi, <- app_assoc; reflexivity).
-      assert (Hk' : forall i k, nth_error (snd (F.cexp base a)) i = Some k -> nth (base + i) (code_consts c) (KInt 0) = k)
+      assert (Hk' : forall i k, nth_error (snd (F.cexp_at slot base a)) i = Some k -> nth (base + i) (code_consts c) (KInt 0) = k)
         by (rewrite Ea; exact Hk).
       destruct (IHa base pre _ st Hwf Hi' Hk' ltac:(lia)) as [k Hrun].
       rewrite Ea in Hrun. cbn [fst] in Hrun. unfold outcome_of in Hrun.
@@ -252,10 +253,10 @@ Section VMScalar.
       replace (length pre + (length ca + 1)) with (S (length pre + length ca)) by lia.
       destruct va; reflexivity.
     - (* SNot *)
-      cbn [F.cexp] in *. destruct (F.cexp base a) as [ca ka] eqn:Ea. cbn [fst snd] in *. cbn [F.need] in Hn.
-      assert (Hi' : instr = pre ++ fst (F.cexp base a) ++ ([opUnaryNot] ++ post))
+      cbn [F.cexp_at] in *. destruct (F.cexp_at slot base a) as [ca ka] eqn:Ea. cbn [fst snd] in *. cbn [F.need] in Hn.
+      assert (Hi' : instr = pre ++ fst (F.cexp_at slot base a) ++ ([opUnaryNot] ++ post))
         by (rewrite Ea; cbn [fst]; rewrite Hi, <- app_assoc; reflexivity).
-      assert (Hk' : forall i k, nth_error (snd (F.cexp base a)) i = Some k -> nth (base + i) (code_consts c) (KInt 0) = k)
+      assert (Hk' : forall i k, nth_error (snd (F.cexp_at slot base a)) i = Some k -> nth (base + i) (code_consts c) (KInt 0) = k)
         by (rewrite Ea; exact Hk).
       destruct (IHa base pre _ st Hwf Hi' Hk' ltac:(lia)) as [k Hrun].
       rewrite Ea in Hrun. cbn [fst] in Hrun. unfold outcome_of in Hrun.
@@ -270,20 +271,20 @@ Section VMScalar.
       reflexivity.
     - (* SBin *)
       apply andb_true_iff in Hwf. destruct Hwf as [Hwa Hwb].
-      cbn [F.cexp] in *. destruct (F.cexp base a) as [ca ka] eqn:Ea.
-      destruct (F.cexp (base + length ka) b) as [cb kb] eqn:Eb. cbn [fst snd] in *. cbn [F.need] in Hn.
+      cbn [F.cexp_at] in *. destruct (F.cexp_at slot base a) as [ca ka] eqn:Ea.
+      destruct (F.cexp_at slot (base + length ka) b) as [cb kb] eqn:Eb. cbn [fst snd] in *. cbn [F.need] in Hn.
       destruct (op_code_shape o) as [x [y [Ho Hx]]]. rewrite Ho in *.
-      assert (Hia : instr = pre ++ fst (F.cexp base a) ++ (cb ++ [x; y] ++ post))
+      assert (Hia : instr = pre ++ fst (F.cexp_at slot base a) ++ (cb ++ [x; y] ++ post))
         by (rewrite Ea; cbn [fst]; rewrite Hi, <- !app_assoc; reflexivity).
-      assert (Hka : forall i k, nth_error (snd (F.cexp base a)) i = Some k -> nth (base + i) (code_consts c) (KInt 0) = k)
+      assert (Hka : forall i k, nth_error (snd (F.cexp_at slot base a)) i = Some k -> nth (base + i) (code_consts c) (KInt 0) = k)
         by (rewrite Ea; cbn [snd]; exact (consts_left ka kb base Hk)).
       destruct (IHa base pre _ st Hwa Hia Hka ltac:(lia)) as [k1 Hr1].
       rewrite Ea in Hr1. cbn [fst] in Hr1. unfold outcome_of in Hr1.
       destruct (F.sev rho a) as [va|xa].
       2:{ exists k1. intros f. rewrite Hr1. reflexivity. }
-      assert (Hib : instr = (pre ++ ca) ++ fst (F.cexp (base + length ka) b) ++ ([x; y] ++ post))
+      assert (Hib : instr = (pre ++ ca) ++ fst (F.cexp_at slot (base + length ka) b) ++ ([x; y] ++ post))
         by (rewrite Eb; cbn [fst]; rewrite Hi, <- !app_assoc; reflexivity).
-      assert (Hkb : forall i k, nth_error (snd (F.cexp (base + length ka) b)) i = Some k ->
+      assert (Hkb : forall i k, nth_error (snd (F.cexp_at slot (base + length ka) b)) i = Some k ->
                                 nth (base + length ka + i) (code_consts c) (KInt 0) = k)
         by (rewrite Eb; cbn [snd]; exact (consts_right ka kb base Hk)).
       destruct (IHb (base + length ka) (pre ++ ca) _ (inj va :: st) Hwb Hib Hkb ltac:(cbn [length]; lia)) as [k2 Hr2].
@@ -306,13 +307,13 @@ Section VMScalar.
         destruct (F.sbin o va vb); reflexivity.
     - (* SLand *)
       apply andb_true_iff in Hwf. destruct Hwf as [Hwa Hwb].
-      cbn [F.cexp] in *. destruct (F.cexp base a) as [ca ka] eqn:Ea.
-      destruct (F.cexp (base + length ka) b) as [cb kb] eqn:Eb. cbn [fst snd] in *. cbn [F.need] in Hn.
+      cbn [F.cexp_at] in *. destruct (F.cexp_at slot base a) as [ca ka] eqn:Ea.
+      destruct (F.cexp_at slot (base + length ka) b) as [cb kb] eqn:Eb. cbn [fst snd] in *. cbn [F.need] in Hn.
       set (body := cb ++ [opBinaryOp; bAnd; opNop]) in *.
       set (off := (F.nlenN body + 2)%N) in *.
-      assert (Hia : instr = pre ++ fst (F.cexp base a) ++ ([opCopy; 0%N; opPopJumpForwardIfFalse; off] ++ body ++ post))
+      assert (Hia : instr = pre ++ fst (F.cexp_at slot base a) ++ ([opCopy; 0%N; opPopJumpForwardIfFalse; off] ++ body ++ post))
         by (rewrite Ea; cbn [fst]; rewrite Hi, <- !app_assoc; reflexivity).
-      assert (Hka : forall i k, nth_error (snd (F.cexp base a)) i = Some k -> nth (base + i) (code_consts c) (KInt 0) = k)
+      assert (Hka : forall i k, nth_error (snd (F.cexp_at slot base a)) i = Some k -> nth (base + i) (code_consts c) (KInt 0) = k)
         by (rewrite Ea; cbn [snd]; exact (consts_left ka kb base Hk)).
       destruct (IHa base pre _ st Hwa Hia Hka ltac:(lia)) as [k1 Hr1].
       rewrite Ea in Hr1. cbn [fst] in Hr1. unfold outcome_of in Hr1.
@@ -343,9 +344,9 @@ Section VMScalar.
       + (* a is truthy: evaluate b, then BinaryOp And keeps b *)
         set (Q := P ++ [opCopy; 0%N; opPopJumpForwardIfFalse; off]).
         assert (HQ : length Q = length P + 4) by (unfold Q; rewrite app_length; reflexivity).
-        assert (Hib : instr = Q ++ fst (F.cexp (base + length ka) b) ++ ([opBinaryOp; bAnd; opNop] ++ post))
+        assert (Hib : instr = Q ++ fst (F.cexp_at slot (base + length ka) b) ++ ([opBinaryOp; bAnd; opNop] ++ post))
           by (rewrite Eb; cbn [fst]; rewrite Hi; unfold Q, P, body; rewrite <- !app_assoc; reflexivity).
-        assert (Hkb : forall i k, nth_error (snd (F.cexp (base + length ka) b)) i = Some k ->
+        assert (Hkb : forall i k, nth_error (snd (F.cexp_at slot (base + length ka) b)) i = Some k ->
                                   nth (base + length ka + i) (code_consts c) (KInt 0) = k)
           by (rewrite Eb; cbn [snd]; exact (consts_right ka kb base Hk)).
         destruct (IHb (base + length ka) Q _ (inj va :: st) Hwb Hib Hkb ltac:(cbn [length]; lia)) as [k2 Hr2].
@@ -378,13 +379,13 @@ Section VMScalar.
         reflexivity.
     - (* SLor *)
       apply andb_true_iff in Hwf. destruct Hwf as [Hwa Hwb].
-      cbn [F.cexp] in *. destruct (F.cexp base a) as [ca ka] eqn:Ea.
-      destruct (F.cexp (base + length ka) b) as [cb kb] eqn:Eb. cbn [fst snd] in *. cbn [F.need] in Hn.
+      cbn [F.cexp_at] in *. destruct (F.cexp_at slot base a) as [ca ka] eqn:Ea.
+      destruct (F.cexp_at slot (base + length ka) b) as [cb kb] eqn:Eb. cbn [fst snd] in *. cbn [F.need] in Hn.
       set (body := cb ++ [opBinaryOp; bOr; opNop]) in *.
       set (off := (F.nlenN body + 2)%N) in *.
-      assert (Hia : instr = pre ++ fst (F.cexp base a) ++ ([opCopy; 0%N; opPopJumpForwardIfTrue; off] ++ body ++ post))
+      assert (Hia : instr = pre ++ fst (F.cexp_at slot base a) ++ ([opCopy; 0%N; opPopJumpForwardIfTrue; off] ++ body ++ post))
         by (rewrite Ea; cbn [fst]; rewrite Hi, <- !app_assoc; reflexivity).
-      assert (Hka : forall i k, nth_error (snd (F.cexp base a)) i = Some k -> nth (base + i) (code_consts c) (KInt 0) = k)
+      assert (Hka : forall i k, nth_error (snd (F.cexp_at slot base a)) i = Some k -> nth (base + i) (code_consts c) (KInt 0) = k)
         by (rewrite Ea; cbn [snd]; exact (consts_left ka kb base Hk)).
       destruct (IHa base pre _ st Hwa Hia Hka ltac:(lia)) as [k1 Hr1].
       rewrite Ea in Hr1. cbn [fst] in Hr1. unfold outcome_of in Hr1.
@@ -419,9 +420,9 @@ Section VMScalar.
       + (* a is falsy: evaluate b, then BinaryOp Or keeps b *)
         set (Q := P ++ [opCopy; 0%N; opPopJumpForwardIfTrue; off]).
         assert (HQ : length Q = length P + 4) by (unfold Q; rewrite app_length; reflexivity).
-        assert (Hib : instr = Q ++ fst (F.cexp (base + length ka) b) ++ ([opBinaryOp; bOr; opNop] ++ post))
+        assert (Hib : instr = Q ++ fst (F.cexp_at slot (base + length ka) b) ++ ([opBinaryOp; bOr; opNop] ++ post))
           by (rewrite Eb; cbn [fst]; rewrite Hi; unfold Q, P, body; rewrite <- !app_assoc; reflexivity).
-        assert (Hkb : forall i k, nth_error (snd (F.cexp (base + length ka) b)) i = Some k ->
+        assert (Hkb : forall i k, nth_error (snd (F.cexp_at slot (base + length ka) b)) i = Some k ->
                                   nth (base + length ka + i) (code_consts c) (KInt 0) = k)
           by (rewrite Eb; cbn [snd]; exact (consts_right ka kb base Hk)).
         destruct (IHb (base + length ka) Q _ (inj va :: st) Hwb Hib Hkb ltac:(cbn [length]; lia)) as [k2 Hr2].
@@ -450,13 +451,13 @@ Section VMScalar.
         reflexivity.
     - (* STern *)
       apply andb_true_iff in Hwf. destruct Hwf as [Hwct Hwe]. apply andb_true_iff in Hwct. destruct Hwct as [Hwc Hwt].
-      cbn [F.cexp] in *. destruct (F.cexp base cnd) as [cc kc] eqn:Ec.
-      destruct (F.cexp (base + length kc) t) as [ct kt] eqn:Et.
-      destruct (F.cexp (base + length kc + length kt) el) as [cf kf] eqn:Ef. cbn [fst snd] in *. cbn [F.need] in Hn.
+      cbn [F.cexp_at] in *. destruct (F.cexp_at slot base cnd) as [cc kc] eqn:Ec.
+      destruct (F.cexp_at slot (base + length kc) t) as [ct kt] eqn:Et.
+      destruct (F.cexp_at slot (base + length kc + length kt) el) as [cf kf] eqn:Ef. cbn [fst snd] in *. cbn [F.need] in Hn.
       set (offF := (F.nlenN ct + 4)%N) in *. set (offJ := (F.nlenN cf + 2)%N) in *.
-      assert (Hic : instr = pre ++ fst (F.cexp base cnd) ++ ([opPopJumpForwardIfFalse; offF] ++ ct ++ [opJumpForward; offJ] ++ cf ++ post))
+      assert (Hic : instr = pre ++ fst (F.cexp_at slot base cnd) ++ ([opPopJumpForwardIfFalse; offF] ++ ct ++ [opJumpForward; offJ] ++ cf ++ post))
         by (rewrite Ec; cbn [fst]; rewrite Hi, <- !app_assoc; reflexivity).
-      assert (Hkc : forall i k, nth_error (snd (F.cexp base cnd)) i = Some k -> nth (base + i) (code_consts c) (KInt 0) = k)
+      assert (Hkc : forall i k, nth_error (snd (F.cexp_at slot base cnd)) i = Some k -> nth (base + i) (code_consts c) (KInt 0) = k)
         by (rewrite Ec; cbn [snd]; exact (consts_left kc (kt ++ kf) base Hk)).
       destruct (IHc base pre _ st Hwc Hic Hkc ltac:(lia)) as [k1 Hr1].
       rewrite Ec in Hr1. cbn [fst] in Hr1. unfold outcome_of in Hr1.
@@ -487,9 +488,9 @@ Section VMScalar.
       + (* then-branch, followed by the jump over the else-branch *)
         set (Q := P ++ [opPopJumpForwardIfFalse; offF]).
         assert (HQ : length Q = length P + 2) by (unfold Q; rewrite app_length; reflexivity).
-        assert (Hit : instr = Q ++ fst (F.cexp (base + length kc) t) ++ ([opJumpForward; offJ] ++ cf ++ post))
+        assert (Hit : instr = Q ++ fst (F.cexp_at slot (base + length kc) t) ++ ([opJumpForward; offJ] ++ cf ++ post))
           by (rewrite Et; cbn [fst]; rewrite Hi; unfold Q, P; rewrite <- !app_assoc; reflexivity).
-        assert (Hkt : forall i k, nth_error (snd (F.cexp (base + length kc) t)) i = Some k ->
+        assert (Hkt : forall i k, nth_error (snd (F.cexp_at slot (base + length kc) t)) i = Some k ->
                                   nth (base + length kc + i) (code_consts c) (KInt 0) = k)
           by (rewrite Et; cbn [snd]; exact (consts_left kt kf (base + length kc) Hkrest)).
         destruct (IHt (base + length kc) Q _ st Hwt Hit Hkt ltac:(lia)) as [k2 Hr2].
@@ -510,9 +511,9 @@ Section VMScalar.
       + (* else-branch *)
         set (Q := P ++ [opPopJumpForwardIfFalse; offF] ++ ct ++ [opJumpForward; offJ]).
         assert (HQ : length Q = length P + (length ct + 4)) by (unfold Q; rewrite !app_length; cbn [length]; lia).
-        assert (Hif : instr = Q ++ fst (F.cexp (base + length kc + length kt) el) ++ post)
+        assert (Hif : instr = Q ++ fst (F.cexp_at slot (base + length kc + length kt) el) ++ post)
           by (rewrite Ef; cbn [fst]; rewrite Hi; unfold Q, P; rewrite <- !app_assoc; reflexivity).
-        assert (Hkf : forall i k, nth_error (snd (F.cexp (base + length kc + length kt) el)) i = Some k ->
+        assert (Hkf : forall i k, nth_error (snd (F.cexp_at slot (base + length kc + length kt) el)) i = Some k ->
                                   nth (base + length kc + length kt + i) (code_consts c) (KInt 0) = k)
           by (rewrite Ef; cbn [snd]; exact (consts_right kt kf (base + length kc) Hkrest)).
         destruct (IHe (base + length kc + length kt) Q _ st Hwe Hif Hkf ltac:(lia)) as [k2 Hr2].
@@ -523,18 +524,40 @@ Section VMScalar.
         reflexivity.
   Qed.
   (* the shape of the statement "every expression adds exactly one value" *)
-  Corollary scalar_pushes_one : forall e base pre post st,
+  Corollary scalar_pushes_one_at : forall e base pre post st,
     F.wf (length rho) e = true ->
-    instr = pre ++ fst (F.cexp base e) ++ post ->
-    (forall i k, nth_error (snd (F.cexp base e)) i = Some k -> nth (base + i) (code_consts c) (KInt 0) = k) ->
+    instr = pre ++ fst (F.cexp_at slot base e) ++ post ->
+    (forall i k, nth_error (snd (F.cexp_at slot base e)) i = Some k -> nth (base + i) (code_consts c) (KInt 0) = k) ->
     below + length st + F.need e <= MAXSTACK ->
     exists k, forall f,
-      (exists v, run (k + f) (length pre) st = run f (length pre + length (fst (F.cexp base e))) (v :: st))
+      (exists v, run (k + f) (length pre) st = run f (length pre + length (fst (F.cexp_at slot base e))) (v :: st))
       \/ (exists x, run (k + f) (length pre) st = (RErr x s, defers)).
   Proof.
     intros e base pre post st Hwf Hi Hk Hn.
-    destruct (vm_scalar e base pre post st Hwf Hi Hk Hn) as [k Hr].
+    destruct (vm_scalar_at e base pre post st Hwf Hi Hk Hn) as [k Hr].
     exists k. intros f. specialize (Hr f). unfold outcome_of in Hr.
     destruct (F.sev rho e) as [v|x]; [left; exists (inj v)|right; exists (cls x)]; exact Hr.
   Qed.
 End VMScalar.
+
+(* the instances for variables that live in the slot of their own number *)
+Definition globals_ok (s : mstate) (rho : list F.sval) : Prop := globals_at s (fun i => i) rho.
+Theorem vm_scalar tabs c below frames free defers is_main s rho (Hglob : globals_ok s rho) : forall e base pre post st,
+  F.wf (length rho) e = true ->
+  code_instr c = pre ++ fst (F.cexp base e) ++ post ->
+  (forall i k, nth_error (snd (F.cexp base e)) i = Some k -> nth (base + i) (code_consts c) (KInt 0) = k) ->
+  below + length st + F.need e <= MAXSTACK ->
+  exists k, forall f,
+    exec tabs (k + f) c (length pre) st below frames free defers is_main s =
+    outcome_of tabs c below frames free defers is_main s rho e f (length pre + length (fst (F.cexp base e))) st.
+Proof. exact (vm_scalar_at tabs c below frames free defers is_main s (fun i => i) rho Hglob). Qed.
+Corollary scalar_pushes_one tabs c below frames free defers is_main s rho (Hglob : globals_ok s rho) : forall e base pre post st,
+  F.wf (length rho) e = true ->
+  code_instr c = pre ++ fst (F.cexp base e) ++ post ->
+  (forall i k, nth_error (snd (F.cexp base e)) i = Some k -> nth (base + i) (code_consts c) (KInt 0) = k) ->
+  below + length st + F.need e <= MAXSTACK ->
+  exists k, forall f,
+    (exists v, exec tabs (k + f) c (length pre) st below frames free defers is_main s =
+               exec tabs f c (length pre + length (fst (F.cexp base e))) (v :: st) below frames free defers is_main s)
+    \/ (exists x, exec tabs (k + f) c (length pre) st below frames free defers is_main s = (RErr x s, defers)).
+Proof. exact (scalar_pushes_one_at tabs c below frames free defers is_main s (fun i => i) rho Hglob). Qed.
